@@ -34,7 +34,7 @@ NOT_DECIDED = ("behaviour under actual interleavings (a model-checking question)
                "of its arguments beyond the state inventory of C10; MD5/count equality (C03)")
 ASSUMPTIONS = ["BTreeMap iterates in key order; Mutex provides mutual exclusion (std)"]
 
-NOINLINE = [r"^par::", r"^source::", r"^coding::", r"datatype::", r"^<.* as source::"]
+NOINLINE = [r"^par::Par", r"^par::feed", r"^par::determine", r"^par::encode_with", r"^source::", r"^coding::", r"datatype::", r"^<.* as source::"]
 
 
 def applicable(tag):
@@ -45,8 +45,15 @@ def worker_closure(facts):
     pe = facts.bodies.get("par::encode_with_fixed_block_size")
     if pe is None:
         raise FactError("par entry point not found")
+    ENC = "coding::encode_fixed_size_frame_impl"
     for c in facts.closures_of(pe, recursive=True):
-        if any((tt.get("fn") or {}).get("def", "").endswith("coding::encode_fixed_size_frame_impl") for _bi, tt in c.calls()):
+        if any((tt.get("fn") or {}).get("def", "").endswith(ENC) for _bi, tt in c.calls()):
+            return pe, c
+    # the body of the worker may have been moved into a private function: the spawned closure that reaches the frame encoder
+    for c in facts.closures_of(pe, recursive=True):
+        reach = facts.closure_of_calls([c], stop=lambda b: b.id.endswith(ENC))
+        if any(b.id.endswith(ENC) for b in reach) and any(
+                (tt.get("fn") or {}).get("name") == "pop_encode_queue" for b in [c] for _bi, tt in b.calls()):
             return pe, c
     raise FactError("worker closure (caller of the frame encoder) not found in the par entry point")
 
@@ -135,8 +142,13 @@ def worker_pairing(facts):
     t.row(cfg.startswith("arg1") and si.startswith("arg1"), w.id, "captured-config", "config / stream info given to the encoder "
           "are %s / %s, not captured values" % (cfg[:60], si[:60]))
     # result: precompute in the worker, pushed exactly once per popped buffer
-    pc = [c for c in facts.closures_of(w, recursive=True)
-          if any((tt.get("fn") or {}).get("name") == "precompute_bitstream" for _bi, tt in c.calls())]
+    wbodies = [w] + [b for b in facts.closure_of_calls([w], stop=lambda b: not b.id.startswith("par::"))
+                     if b.id.startswith("par::") and not b.id.startswith("par::Par")]
+    pc = []
+    for wb in wbodies:
+        for c in [wb] + facts.closures_of(wb, recursive=True):
+            if any((tt.get("fn") or {}).get("name") == "precompute_bitstream" for _bi, tt in c.calls()) and c not in pc:
+                pc.append(c)
     t.row(len(pc) == 1, w.id, "precompute-in-worker", "the worker does not precompute the frame's bitstream before handing it over")
     # captures of the worker closure: types
     caps = []
@@ -168,7 +180,8 @@ def feeder_rules(facts):
               if s["k"] == "assign" and any(p == ".frame_number" for p in s["dst"]["p"])]
     enq = [bi for bi, tt in fd.calls() if (tt.get("fn") or {}).get("name") == "enqueue_encode"]
     rd = [bi for bi, tt in fd.calls() if re.search(r"Source>::read_samples", (tt.get("fn") or {}).get("full") or "")]
-    lock = [bi for bi, tt in fd.calls() if (tt.get("fn") or {}).get("name") == "lock" and "Mutex" in ((tt.get("fn") or {}).get("full") or "")]
+    # the lock site: the call that yields the MutexGuard (Mutex::lock(..).expect(..) or a helper returning the guard)
+    lock = [bi for bi, tt in fd.calls() if not tt["dst"]["p"] and (fd.local_ty(tt["dst"]["l"]) or "").startswith("std::sync::MutexGuard<")]
     if not (len(stores) == 1 and len(enq) == 1 and len(rd) == 1 and len(lock) == 1):
         t.row(False, fd.id, "shape", "feeder has %d number stores, %d enqueue, %d read, %d lock sites"
               % (len(stores), len(enq), len(rd), len(lock)))
@@ -192,7 +205,7 @@ def feeder_rules(facts):
     lk = fd.blocks[lock[0]]["term"]
     from .lib_expr import ExprCtx
     c = ExprCtx(fd)
-    le = c.expr(lk["args"][0])
+    le = ("agg", "tuple", None, tuple(c.expr(a) for a in lk["args"]))
     ee = c.expr(fd.blocks[enq[0]]["term"]["args"][1])
     same = "recv_refill_request" in lshow(le) and "recv_refill_request" in lshow(ee)
     t.row(same, fd.id, "same-buffer-id", "the buffer locked (%s) and the id enqueued (%s) do not both come from "
@@ -351,6 +364,11 @@ def sibling_encoder(facts):
         raise FactError("frame encoder not found")
     for e in encs:
         bodies = [e] + facts.closures_of(e, recursive=True)
+        # private helpers of the par module the encoder's closures hand work to (not the protocol types' methods)
+        if e.id.startswith("par::"):
+            for hb in facts.closure_of_calls(bodies, stop=lambda b: not b.id.startswith("par::")):
+                if hb.id.startswith("par::") and not hb.id.startswith("par::Par") and hb not in bodies and hb.id != e.id:
+                    bodies.append(hb)
         callees = set()
         for b in bodies:
             for _bi, tt in b.calls():
